@@ -197,12 +197,20 @@ def do_string(m, rng, spec, conv, n):
         m.canonical(conv, spec, at, want=at)
         ent_at = "&amp;" * cap  # decodes to exactly cap characters
         m.canonical(conv, spec, ent_at, want="&" * cap, wire=esc)
+        # over the limit only by what a careless count leaves out: blanks at the end, an escaped blank, blanks in front
+        padded = ["x" * cap + " ", "x" * cap + "&nbsp;", "x" + " " * cap, " " + "x" * cap, "x" * cap + "\t", "x" * (cap - 1) + "  " if cap > 1 else "x "]
         if strict:
             m.reject_text(conv, spec, over, "over-length-accepted-on-read")
             m.reject_text(conv, spec, "&lt;" * (cap + 1), "over-length-accepted-on-read")
             m.reject_write(conv, spec, over, "over-length-accepted-on-write")
+            for t in padded:
+                m.ctx.count("over_length_by_blanks")
+                m.reject_text(conv, spec, t, "over-length-accepted-on-read")
+                if "&nbsp;" not in t:
+                    m.reject_write(conv, spec, t, "over-length-accepted-on-write")
         else:
-            for op, arg in (("convert", over), ("unconvert", over)):
+            for op, arg in [("convert", over), ("unconvert", over)] + [("convert", t) for t in padded if "&nbsp;" not in t] + [("unconvert", t) for t in padded if "&nbsp;" not in t]:
+                over = arg
                 m.ctx.ev()
                 m.ctx.count("law_nag")
                 st, r, w = m.call(conv, op, arg)
@@ -422,6 +430,11 @@ def do_datetime(m, rng, spec, conv, n):
         m.canonical(conv, spec, t)
     for bad in (["1200", "250000", "126000", "12000a", "noon"] if is_time else ["2020", "20201301", "20200230", "20200101240000", "2020-01-01", "yesterday", "20200101T120000"]):
         m.reject_text(conv, spec, bad, "non-notation-text-accepted")
+    # the bracketed offset: no hours at all, hours that are no signed number, hours / minutes beyond the clock
+    stem = "120000.000" if is_time else "20200229120000.000"
+    for off in ("[]", "[:EST]", "[.30]", "[.30:EST]", "[5-3:EST]", "[+-:PST]", "[--5]", "[5+]", "[+15]", "[-13]", "[99]", "[+5.60]", "[+5.7]", "[+5.075]", "[ +5]", "[+5"):
+        m.ctx.count("offset_field_texts")
+        m.reject_text(conv, spec, stem + off, "non-notation-text-accepted")
     # texts of the OTHER of the two notations, right after a converter of that other type has read them (same process, shared state)
     other = m.T.DateTime() if is_time else m.T.Time()
     for bad in (["20111117", "20200229120000", "20200229120000.123[-5:EST]", "19991231"] if is_time else ["120000", "235959.999", "000000.000[-5:EST]", "0101"]):
